@@ -383,6 +383,7 @@ pub fn gen_world(rng: &mut Rng, o: &GenOpts) -> CliWorld {
   }
   let mut specs: Vec<RuleSpec> = vec![];
   let mut utils: Vec<RuleSpec> = vec![];
+  let mut path_scoped: Vec<&str> = vec![];
   for l in &langs {
     let mut cands: Vec<&rules::Template> = TEMPLATES
       .iter()
@@ -390,6 +391,15 @@ pub fn gen_world(rng: &mut Rng, o: &GenOpts) -> CliWorld {
       .filter(|t| o.order_sensitive_rules || t.name != "shared-constraint")
       .filter(|t| !o.fix_heavy || !t.fix.is_empty() || t.name == "no-debugger" || rng_free_keep(t.name))
       .collect();
+    // now and then a language whose every rule is limited to some paths (files:/ignores:): the
+    // walker must still visit that language's files
+    if rng.chance(0.06) {
+      let scoped: Vec<&rules::Template> = cands.iter().copied().filter(|t| !t.files.is_empty() || !t.ignores.is_empty()).collect();
+      if !scoped.is_empty() {
+        cands = scoped;
+        path_scoped.push(*l);
+      }
+    }
     rng.shuffle(&mut cands);
     let take = rng.range(1, cands.len().min(9));
     for t in cands.into_iter().take(take) {
@@ -417,7 +427,7 @@ pub fn gen_world(rng: &mut Rng, o: &GenOpts) -> CliWorld {
   // randomly generated rule trees with inter-dependent local utilities
   let mut gen_n = 0;
   for l in &langs {
-    if matches!(*l, "TypeScript" | "JavaScript") && rng.chance(0.6) {
+    if matches!(*l, "TypeScript" | "JavaScript") && !path_scoped.contains(l) && rng.chance(0.6) {
       for _ in 0..rng.range(1, 3) {
         specs.push(rules::gen_random_rule(rng, l, gen_n));
         gen_n += 1;
@@ -426,7 +436,7 @@ pub fn gen_world(rng: &mut Rng, o: &GenOpts) -> CliWorld {
   }
   // randomly generated global utilities (with local utils of their own) and rules using them
   for (li, l) in langs.iter().enumerate() {
-    if matches!(*l, "TypeScript" | "JavaScript") && rng.chance(0.4) {
+    if matches!(*l, "TypeScript" | "JavaScript") && !path_scoped.contains(l) && rng.chance(0.4) {
       let (gs, rs) = rules::gen_random_globals(rng, l, li);
       for g in gs {
         if !utils.iter().any(|x| x.id == g.id) {
